@@ -52,6 +52,13 @@ def run_reuse(c, P):
     if P.get('first1') and c.concrete is None and N1:
         c.assume(z3.Or([(s1[0].e & 0x7F) == op for op in P['first1']]))
     s2 = [c.byte('y%d' % i) for i in range(N2)]
+    if ending == 'compressed-then-eof':
+        # connection 2: a NEW server context sends a first compressed message (needs no history) + symbolic bytes
+        from .deflate import RefPeerDeflater
+        d2 = RefPeerDeflater(c, 15, False)
+        d2.gen = 210
+        n1 = d2.compress(list(b'fresh start'))
+        s2 = [0xC1, len(n1)] + list(n1) + s2
     app1 = None
     if ending == 'eof':
         w.scripts[0] = Script(hconn.server_stream(s1, extra=ext), end='eof')
@@ -83,10 +90,13 @@ def run_reuse(c, P):
                 raise Abandon()
     elif ending == 'compressed-then-eof':
         # a compressed message with context takeover, then the stream stops inside the next frame
-        import zlib
-        co = zlib.compressobj(zlib.Z_DEFAULT_COMPRESSION, zlib.DEFLATED, -15)
-        m1 = (co.compress(b'hello hello hello') + co.flush(zlib.Z_SYNC_FLUSH))[:-4]
-        w.scripts[0] = Script(hconn.server_stream([0xC1, len(m1)] + list(m1) + s1, extra=ext), end='eof')
+        # server side of the reference peer: message 1 and 2 of one deflate context (context takeover)
+        from .deflate import RefPeerDeflater
+        d1 = RefPeerDeflater(c, 15, False)
+        m1 = d1.compress(list(b'hello hello'))
+        m2 = d1.compress(list(b'hello again'))
+        # connection 1 stops inside the second compressed message
+        w.scripts[0] = Script(hconn.server_stream([0xC1, len(m1)] + list(m1) + [0xC1, len(m2)] + list(m2)[:3] + s1, extra=ext), end='eof')
     ws = L.WebSocket('ws://example.com/', compress=compress)
     rec1 = hconn.drive(w, ws, ck, app1)
     if getattr(rec1, 'abandoned', False) and rec1.gen is not None:
